@@ -269,17 +269,21 @@ func (a *aclList) AddRawRecord(rawRec *consensusproto.RawRecordWithId) (err erro
 	if err = copyState.ApplyRecord(record); err != nil {
 		return
 	}
-	a.setState(copyState)
-	a.records = append(a.records, record)
-	a.indexes[record.Id] = len(a.records) - 1
 	storageRec := StorageRecord{
 		RawRecord:  rawRec.Payload,
 		PrevId:     record.PrevId,
 		Id:         record.Id,
-		Order:      len(a.records),
+		Order:      len(a.records) + 1,
 		ChangeSize: len(rawRec.Payload),
 	}
-	return a.storage.AddAll(context.Background(), []StorageRecord{storageRec})
+	// persist first: if the storage write fails the live list must stay on the stored head
+	if err = a.storage.AddAll(context.Background(), []StorageRecord{storageRec}); err != nil {
+		return
+	}
+	a.setState(copyState)
+	a.records = append(a.records, record)
+	a.indexes[record.Id] = len(a.records) - 1
+	return
 }
 
 func (a *aclList) setState(state *AclState) {
